@@ -111,6 +111,10 @@ func runC07R(c C07RCase, info *kit.Info) *kit.Finding {
 		salt := kit.DetBytes(c.Seed*1_000_003+int64(op.Label), key.SaltSize())
 		conn, err := net.DialTimeout("tcp", addrs[op.Svc], 3*time.Second)
 		if err != nil {
+			if kit.EnvNetError(err) {
+				info.Skipped = "host out of ports: " + err.Error()
+				return nil
+			}
 			return kit.Violation("reload:refused", "op %d: cannot connect to retained listener %s: %v", i, addrs[op.Svc], err)
 		}
 		local := conn.LocalAddr().String()
